@@ -73,6 +73,7 @@ type Input struct {
 	Tokens    []TokSpec `json:"tokens,omitempty"`
 	UseTokens bool      `json:"use_tokens,omitempty"`
 	Label     string    `json:"label,omitempty"` // valid | bad | recover | deep (informational)
+	Cache     bool      `json:"cache,omitempty"` // the scanner hands out the SAME token objects every time this input is parsed by this client (a replaying scanner)
 }
 
 type Fault struct {
@@ -106,6 +107,8 @@ type Job struct {
 	FaultKinds   []string      `json:"fault_kinds,omitempty"`
 	Ops          []Op          `json:"ops,omitempty"`
 	Tasks        []TaskSpec    `json:"tasks,omitempty"`
+	Cold         bool          `json:"cold,omitempty"`  // c17: the scheduled run is the first thing this process does with the generated code (no solo run before it)
+	Reuse        bool          `json:"reuse,omitempty"` // c03: one parser object serves the whole enumeration
 	Schedule     gsim.Schedule `json:"schedule,omitempty"`
 }
 
@@ -236,28 +239,46 @@ func (o *Outcome) String() string {
 
 type scanPanic struct{ at int }
 
+// tokCache holds, per client, the token objects already handed out for an
+// input that asks for a replaying scanner.
+type tokCache map[string][]interface{}
+
 // tokenSource returns the next() function feeding a parser.
-func (e *env) tokenSource(in *Input, lex Lexer, sess *act.Session, scans *int, scanPanicAt int) func() interface{} {
+func (e *env) tokenSource(in *Input, lex Lexer, sess *act.Session, scans *int, scanPanicAt int, cache tokCache) func() interface{} {
 	i := 0
+	key := ""
+	var replay []interface{}
+	if in.Cache && cache != nil {
+		key = in.Text + "\x00" + fmt.Sprint(in.UseTokens)
+		replay = cache[key]
+	}
+	produce := func() interface{} {
+		if lex != nil {
+			return lex.Scan()
+		}
+		if i < len(in.Tokens) {
+			t := in.Tokens[i]
+			i++
+			return e.g.MakeToken(t.Name, t.Lit, t.Off, 1, t.Off+1)
+		}
+		off := 0
+		if n := len(in.Tokens); n > 0 {
+			off = in.Tokens[n-1].Off + len(in.Tokens[n-1].Lit)
+		}
+		return e.g.MakeToken("$EOF", "", off, 1, off+1)
+	}
+	_ = replay
 	return func() interface{} {
 		*scans++
 		if scanPanicAt > 0 && *scans == scanPanicAt {
 			panic(scanPanic{at: *scans})
 		}
-		var tok interface{}
-		if lex != nil {
-			tok = lex.Scan()
-		} else {
-			if i < len(in.Tokens) {
-				t := in.Tokens[i]
-				tok = e.g.MakeToken(t.Name, t.Lit, t.Off, 1, t.Off+1)
-				i++
+		tok := produce() // the underlying source always advances
+		if key != "" {
+			if have := cache[key]; *scans <= len(have) {
+				tok = have[*scans-1] // replaying scanner: the very object handed out last time
 			} else {
-				off := 0
-				if n := len(in.Tokens); n > 0 {
-					off = in.Tokens[n-1].Off + len(in.Tokens[n-1].Lit)
-				}
-				tok = e.g.MakeToken("$EOF", "", off, 1, off+1)
+				cache[key] = append(have, tok)
 			}
 		}
 		sess.Handed[tok] = true
@@ -266,7 +287,7 @@ func (e *env) tokenSource(in *Input, lex Lexer, sess *act.Session, scans *int, s
 }
 
 // runParse performs p.Parse over the input and records everything observable.
-func (e *env) runParse(p Parser, lex Lexer, in *Input, f *Fault, sess *act.Session) (out *Outcome) {
+func (e *env) runParse(p Parser, lex Lexer, in *Input, f *Fault, sess *act.Session, cache tokCache) (out *Outcome) {
 	out = &Outcome{}
 	fc, fk, sp := 0, "", 0
 	if f != nil {
@@ -276,7 +297,7 @@ func (e *env) runParse(p Parser, lex Lexer, in *Input, f *Fault, sess *act.Sessi
 	sess.Render = e.render(sess)
 	gsim.Cur().Steps = 0
 	scans := 0
-	next := e.tokenSource(in, lex, sess, &scans, sp)
+	next := e.tokenSource(in, lex, sess, &scans, sp, cache)
 	func() {
 		defer func() {
 			if r := recover(); r != nil {
